@@ -351,20 +351,41 @@ Qed.
 
 Section Generic.
   Variable A : key -> acct -> Prop.
+  (* the ledger updates allowed at a distribution address: lv_step, or a sub-relation of it (each introduction rule is a
+     separate hypothesis; a processor lemma depends only on the rules it uses) *)
+  Variable R : lview -> list N -> lview -> list N -> Prop.
   Definition inv (W : world) : Prop := forall k, A k (get W k).
   (* at a free address any account whose data is okw satisfies A; at a distribution address every lv_step is allowed *)
   Definition free_key (k : key) : Prop := forall a, okw (data a) -> A k a.
   Definition dist_key (k : key) (d : dist) (t : list N) : Prop :=
-    forall a d' t', A k a -> lv_step (lv d) t (lv d') t' -> A k (a <| data := DDist d' t' |>).
+    forall a d' t', A k a -> R (lv d) t (lv d') t' -> A k (a <| data := DDist d' t' |>).
   Definition wperm (k : key) (x : adata) : Prop := forall a, A k a -> A k (a <| data := x |>).
 
   Hypothesis A_ext : forall k a a', owner a' = owner a -> data a' = data a -> A k a -> A k a'.
   Hypothesis A_free : forall k a, A k a -> owner a <> KRd \/ ~ is_dist_data (data a) -> free_key k.
   Hypothesis A_dist : forall k a d t, A k a -> owner a = KRd -> data a = DDist d t -> dist_key k d t.
+  Hypothesis R_same : forall v t v', v' = v -> R v t v' t.
+  Hypothesis R_debt_zero : forall v t v', l_df v = false -> v' = v <| l_df := true |> -> R v t v' t.
+  Hypothesis R_debt_alloc : forall v t v' extra, l_df v = false -> extra <= MAX_REALLOC ->
+    v' = v <| l_df := true |> <| l_ds := N.of_nat (length t) |> <| l_de := sat_add two32 (N.of_nat (length t)) extra |> ->
+    R v t v' (t ++ zeros extra).
+  Hypothesis R_rew_alloc : forall v t v' extra, l_rf v = false -> l_df v = true -> extra <= MAX_REALLOC ->
+    v' = v <| l_rf := true |> <| l_rs := N.of_nat (length t) |> <| l_re := sat_add two32 (N.of_nat (length t)) extra |> ->
+    R v t v' (t ++ zeros extra).
+  Hypothesis R_wo_alloc : forall v t v' extra, l_wf v = false -> l_df v = true -> extra <= MAX_REALLOC ->
+    v' = v <| l_wf := true |> <| l_ws := N.of_nat (length t) |> <| l_we := sat_add two32 (N.of_nat (length t)) extra |> ->
+    R v t v' (t ++ zeros extra).
+  Hypothesis R_pay : forall v t v' idx t', process_leaf t (l_ds v) (l_de v) idx = Ok t' -> v' = v <| l_pc := wadd32 (l_pc v) 1 |> ->
+    R v t v' t'.
+  Hypothesis R_wo : forall v t v' idx t1 t2,
+    process_leaf t (l_ws v) (l_we v) idx = Ok t1 -> process_leaf t1 (l_ds v) (l_de v) idx = Ok t2 ->
+    v' = v <| l_wc := wadd32 (l_wc v) 1 |> -> R v t v' t2.
+  Hypothesis R_dist : forall v t v' idx t', process_leaf t (l_rs v) (l_re v) idx = Ok t' -> v' = v <| l_dc := wadd32 (l_dc v) 1 |> ->
+    R v t v' t'.
 
   Lemma free_wperm k x : free_key k -> okw x -> wperm k x.
   Proof. intros F O a _. apply F. exact O. Qed.
-  Lemma dist_wperm k d t d' t' : dist_key k d t -> lv_step (lv d) t (lv d') t' -> wperm k (DDist d' t').
+  Lemma dist_wperm k d t d' t' : dist_key k d t -> R (lv d) t (lv d') t' -> wperm k (DDist d' t').
   Proof. intros D S a Ha. apply D; assumption. Qed.
 
   Lemma inv_hdr W W' : (forall k, hdr (get W' k) = hdr (get W k)) -> inv W -> inv W'.
@@ -499,10 +520,10 @@ Section Generic.
   (* ---- the inversion tactic (Lemmas_Canon's tc_go, with the invariant and the per-address write permissions) ---- *)
   Ltac okw_tac := first [ exact Logic.I | split; reflexivity ].
   Ltac ls_tac :=
-    first [ apply ls_same; reflexivity
-          | eapply ls_pay; [eassumption|reflexivity]
-          | eapply ls_dist; [eassumption|reflexivity]
-          | eapply ls_wo; [eassumption|eassumption|reflexivity] ].
+    first [ apply R_same; reflexivity
+          | eapply R_pay; [eassumption|reflexivity]
+          | eapply R_dist; [eassumption|reflexivity]
+          | eapply R_wo; [eassumption|eassumption|reflexivity] ].
   Ltac g_side :=
     solve [ eapply free_wperm; [eassumption|okw_tac]
           | eapply dist_wperm; [eassumption|ls_tac] ].
@@ -629,4 +650,265 @@ Section Generic.
      re-read after the first write) only changes d_uncollectible *)
   Lemma rd_write_off_inv cx W amount p W' : rd_write_off cx W amount p = Ok W' -> inv W -> inv W'.
   Proof. unfold rd_write_off. intros H HI. g_go H. Qed.
+
+  (* the three instructions that append a window *)
+  Ltac g_norm :=
+    repeat match goal with
+    | u : unit |- _ => destruct u
+    | H : require _ _ = Ok _ |- _ => apply require_ok in H
+    | H : negb _ = true |- _ => apply negb_true_iff in H
+    end.
+  Lemma rd_finalize_debt_inv cx W W' : rd_finalize_debt cx W = Ok W' -> inv W -> inv W'.
+  Proof using A_ext A_free A_dist R_debt_zero R_debt_alloc.
+    unfold rd_finalize_debt. intros H HI. do 7 (g_step H).
+    - (* no collectible debt: only the flag *)
+      eapply put_dist_inv in H; [exact H|eassumption|]. g_norm.
+      eapply dist_wperm; [eassumption|]. eapply R_debt_zero; [eassumption|reflexivity].
+    - eapply grow_and_fund_inv; [exact H|eassumption|]. intros Hx. g_norm.
+      eapply dist_wperm; [eassumption|]. eapply R_debt_alloc; [eassumption|exact Hx|reflexivity].
+  Show Proof.
+  Qed.
+  Lemma rd_finalize_rewards_inv cx W W' : rd_finalize_rewards cx W = Ok W' -> inv W -> inv W'.
+  Proof using A_ext A_free A_dist R_rew_alloc.
+    unfold rd_finalize_rewards. intros H HI. do 10 (g_step H).
+    eapply grow_and_fund_inv; [exact H|eassumption|]. intros Hx. g_norm.
+    eapply dist_wperm; [eassumption|]. eapply R_rew_alloc; [eassumption|eassumption|exact Hx|reflexivity].
+  Qed.
+  Lemma rd_enable_write_off_inv cx W W' : rd_enable_write_off cx W = Ok W' -> inv W -> inv W'.
+  Proof using A_ext A_free A_dist R_wo_alloc.
+    unfold rd_enable_write_off. intros H HI. do 6 (g_step H). cbv zeta in H.
+    apply bind_ok in H as (W1 & Ea & H). apply bind_ok in H as (W2 & Eb & H).
+    match type of Eb with resize _ _ _ (_ + ?x) = _ => assert (Hx : x <= MAX_REALLOC) by (apply resize_spec in Eb; lia) end.
+    eapply put_dist_inv in Ea; [|eassumption|].
+    2:{ g_norm. eapply dist_wperm; [eassumption|]. eapply R_wo_alloc; [eassumption|eassumption|exact Hx|reflexivity]. }
+    eapply resize_inv in Eb; [|exact Ea].
+    g_go H.
+  Qed.
+
+  Theorem rd_process_inv cx W ix W' : rd_process cx W ix = Ok W' -> inv W -> inv W'.
+  Proof.
+    destruct ix; cbn [rd_process].
+    - apply rd_initialize_program_inv.
+    - apply rd_migrate_inv.
+    - apply rd_set_admin_inv.
+    - apply rd_configure_program_inv.
+    - apply rd_initialize_journal_inv.
+    - apply rd_initialize_distribution_inv.
+    - apply rd_configure_debt_inv.
+    - apply rd_finalize_debt_inv.
+    - apply rd_configure_rewards_inv.
+    - apply rd_finalize_rewards_inv.
+    - apply rd_distribute_rewards_inv.
+    - apply rd_initialize_contributor_inv.
+    - apply rd_set_rewards_manager_inv.
+    - apply rd_configure_contributor_inv.
+    - apply rd_verify_root_inv.
+    - apply rd_initialize_deposit_inv.
+    - apply rd_pay_debt_inv.
+    - apply rd_enable_write_off_inv.
+    - apply rd_write_off_inv.
+    - apply rd_initialize_swap_destination_inv.
+    - apply rd_sweep_inv.
+    - apply rd_withdraw_sol_inv.
+  Qed.
+
+  (* the instructions that settle a leaf; every other instruction needs only R_same, R_debt_zero and the three R_*_alloc *)
+  Definition quiet_rd (ix : rd_ix) : bool :=
+    match ix with RPayDebt _ _ | RWriteOff _ _ | RDistributeRewards _ _ _ => false | _ => true end.
+  Theorem rd_process_inv_quiet cx W ix W' : quiet_rd ix = true -> rd_process cx W ix = Ok W' -> inv W -> inv W'.
+  Proof.
+    destruct ix; cbn [rd_process quiet_rd]; intros Hq; try discriminate Hq.
+    - apply rd_initialize_program_inv.
+    - apply rd_migrate_inv.
+    - apply rd_set_admin_inv.
+    - apply rd_configure_program_inv.
+    - apply rd_initialize_journal_inv.
+    - apply rd_initialize_distribution_inv.
+    - apply rd_configure_debt_inv.
+    - apply rd_finalize_debt_inv.
+    - apply rd_configure_rewards_inv.
+    - apply rd_finalize_rewards_inv.
+    - apply rd_initialize_contributor_inv.
+    - apply rd_set_rewards_manager_inv.
+    - apply rd_configure_contributor_inv.
+    - apply rd_verify_root_inv.
+    - apply rd_initialize_deposit_inv.
+    - apply rd_enable_write_off_inv.
+    - apply rd_initialize_swap_destination_inv.
+    - apply rd_sweep_inv.
+    - apply rd_withdraw_sol_inv.
+  Qed.
+
+  (* ---- passport and the mock swap program ---- *)
+  Lemma pp_initialize_program_inv cx W W' : pp_initialize_program cx W = Ok W' -> inv W -> inv W'.
+  Proof. unfold pp_initialize_program. intros H HI. g_go H. Qed.
+  Lemma pp_set_admin_inv cx W k W' : pp_set_admin cx W k = Ok W' -> inv W -> inv W'.
+  Proof. unfold pp_set_admin. intros H HI. g_go H. Qed.
+  Lemma pp_configure_program_inv cx W s W' : pp_configure_program cx W s = Ok W' -> inv W -> inv W'.
+  Proof. unfold pp_configure_program. intros H HI. g_go H. Qed.
+  Lemma pp_request_access_inv cx W m W' : pp_request_access cx W m = Ok W' -> inv W -> inv W'.
+  Proof. unfold pp_request_access. intros H HI. g_go H. Qed.
+  Lemma pp_grant_access_inv cx W W' : pp_grant_access cx W = Ok W' -> inv W -> inv W'.
+  Proof. unfold pp_grant_access. intros H HI. g_go H. Qed.
+  Lemma pp_deny_access_inv cx W W' : pp_deny_access cx W = Ok W' -> inv W -> inv W'.
+  Proof. unfold pp_deny_access. intros H HI. g_go H. Qed.
+  Theorem pp_process_inv cx W ix W' : pp_process cx W ix = Ok W' -> inv W -> inv W'.
+  Proof.
+    destruct ix; cbn [pp_process].
+    - apply pp_initialize_program_inv.
+    - apply pp_set_admin_inv.
+    - apply pp_configure_program_inv.
+    - apply pp_request_access_inv.
+    - apply pp_grant_access_inv.
+    - apply pp_deny_access_inv.
+  Qed.
+
+  Lemma withdraw_sol_cpi_inv cx W cfg auth jk dest sol sib W' :
+    withdraw_sol_cpi cx W cfg auth jk dest sol sib = Ok W' -> inv W -> inv W'.
+  Proof. unfold withdraw_sol_cpi. intros H HI. g_step H. eapply rd_withdraw_sol_inv; eassumption. Qed.
+  Ltac g_comp E ::=
+    first
+    [ eapply distribute_loop_inv in E; [|eassumption]
+    | eapply swap_dequeue_cpi_inv in E; [|eassumption]
+    | eapply sw_dequeue_fills_inv in E; [|eassumption]
+    | eapply withdraw_sol_cpi_inv in E; [|eassumption] ].
+  Lemma sw_initialize_inv cx W W' : sw_initialize cx W = Ok W' -> inv W -> inv W'.
+  Proof. unfold sw_initialize. intros H HI. g_go H. Qed.
+  Lemma sw_buy_sol_inv cx W z sol W' : sw_buy_sol cx W z sol = Ok W' -> inv W -> inv W'.
+  Proof. unfold sw_buy_sol. intros H HI. g_go H. Qed.
+  Theorem sw_process_inv cx W ix W' : sw_process cx W ix = Ok W' -> inv W -> inv W'.
+  Proof.
+    destruct ix; cbn [sw_process].
+    - apply sw_initialize_inv.
+    - apply sw_buy_sol_inv.
+    - intros H HI. g_go H.
+  Qed.
+
+  (* ---- instructions (top-level System / Token instructions and rogue CPI wrappers included), instruction lists ---- *)
+  Theorem exec_data_inv d : forall prog ms h sib W W', exec_data prog d ms h sib W = Ok W' -> inv W -> inv W'.
+  Proof.
+    induction d as [i|i|i|amt|lam space o|amt|amt dec|amt|inner IH|z sol|]; intros prog ms h sib W W' H HI;
+      cbn [exec_data] in H; apply bind_ok in H as (W1 & E & H); apply bind_ok in H as (u & _ & H); injection H as <-.
+    - destruct prog; try discriminate E. eapply pp_process_inv; eassumption.
+    - destruct prog; try discriminate E. eapply rd_process_inv; eassumption.
+    - destruct prog; try discriminate E. eapply sw_process_inv; eassumption.
+    - destruct prog; try discriminate E. g_step E. eapply sys_transfer_core_inv; eassumption.
+    - destruct prog; try discriminate E. g_step E. eapply sys_create_account_core_inv; eassumption.
+    - destruct prog; try discriminate E. g_step E. eapply tok_transfer_core_inv; eassumption.
+    - destruct prog; try discriminate E. g_step E. eapply tok_transfer_core_inv; eassumption.
+    - destruct prog; try discriminate E. g_step E. eapply tok_burn_core_inv; eassumption.
+    - destruct prog; try discriminate E. destruct ms as [|callee rest]; [discriminate E|].
+      g_step E. eapply IH; eassumption.
+    - destruct prog; try discriminate E. g_go E.
+    - destruct prog; injection E as <-; exact HI.
+  Qed.
+  Theorem exec_ixs_inv t ixs : forall prev W W', exec_ixs t ixs prev W = Ok W' -> inv W -> inv W'.
+  Proof.
+    induction ixs as [|i tl IH]; intros prev W W' H HI; cbn [exec_ixs] in H.
+    - injection H as <-. exact HI.
+    - apply bind_ok in H as (W1 & E & H). eapply IH; [exact H|]. eapply exec_data_inv; eassumption.
+  Qed.
+
+  (* the same for instructions / transactions that contain no PayDebt, WriteOff or DistributeRewards (at any CPI depth) *)
+  Fixpoint quiet (d : ixdata) : bool :=
+    match d with IxRd i => quiet_rd i | IxRogueCpi inner => quiet inner | _ => true end.
+  Definition quiet_ixs (ixs : list instr) : bool := forallb (fun i => quiet (i_data i)) ixs.
+  Theorem exec_data_inv_quiet d : forall prog ms h sib W W',
+    quiet d = true -> exec_data prog d ms h sib W = Ok W' -> inv W -> inv W'.
+  Proof.
+    induction d as [i|i|i|amt|lam space o|amt|amt dec|amt|inner IH|z sol|]; intros prog ms h sib W W' Hq H HI;
+      cbn [exec_data] in H; apply bind_ok in H as (W1 & E & H); apply bind_ok in H as (u & _ & H); injection H as <-.
+    - destruct prog; try discriminate E. eapply pp_process_inv; eassumption.
+    - destruct prog; try discriminate E. eapply rd_process_inv_quiet; eassumption.
+    - destruct prog; try discriminate E. eapply sw_process_inv; eassumption.
+    - destruct prog; try discriminate E. g_step E. eapply sys_transfer_core_inv; eassumption.
+    - destruct prog; try discriminate E. g_step E. eapply sys_create_account_core_inv; eassumption.
+    - destruct prog; try discriminate E. g_step E. eapply tok_transfer_core_inv; eassumption.
+    - destruct prog; try discriminate E. g_step E. eapply tok_transfer_core_inv; eassumption.
+    - destruct prog; try discriminate E. g_step E. eapply tok_burn_core_inv; eassumption.
+    - destruct prog; try discriminate E. destruct ms as [|callee rest]; [discriminate E|].
+      g_step E. eapply IH; eassumption.
+    - destruct prog; try discriminate E. g_go E.
+    - destruct prog; injection E as <-; exact HI.
+  Qed.
+  Theorem exec_ixs_inv_quiet t ixs : forall prev W W', quiet_ixs ixs = true -> exec_ixs t ixs prev W = Ok W' -> inv W -> inv W'.
+  Proof.
+    induction ixs as [|i tl IH]; intros prev W W' Hq H HI; cbn [exec_ixs] in H.
+    - injection H as <-. exact HI.
+    - cbn [quiet_ixs forallb] in Hq. apply andb_true_iff in Hq as (Hq1 & Hq2).
+      apply bind_ok in H as (W1 & E & H). eapply IH; [exact Hq2|exact H|]. eapply exec_data_inv_quiet; eassumption.
+  Qed.
+  Theorem exec_tx_cases_quiet W t W' ok : quiet_ixs (tx_ixs t) = true -> exec_tx W t = (W', ok) -> inv W ->
+    W' = W \/ exists W1, inv W1 /\ W' = purge W1.
+  Proof.
+    unfold exec_tx. intros Hq H HI. destruct (negb (tx_wf t)); [injection H as <- _; left; reflexivity|].
+    destruct (exec_ixs t (tx_ixs t) None W) as [W1|e] eqn:E; [|injection H as <- _; left; reflexivity].
+    destruct (rent_ok t W W1); injection H as <- _; [|left; reflexivity].
+    right. exists W1. split; [|reflexivity]. eapply exec_ixs_inv_quiet; eassumption.
+  Qed.
+
+  (* ---- the scenario operations that are not transactions (OForge excluded) ---- *)
+  Definition nontx_op (o : op) : Prop := match o with OTx _ | OForge _ _ => False | _ => True end.
+  Theorem exec_op_nontx_inv W o : nontx_op o -> inv W -> inv (fst (exec_op W o)).
+  Proof.
+    intros Ho HI. destruct o as [t|ts|k lam|k a|k amt|payer o_]; cbn [exec_op]; try destruct Ho.
+    - exact HI.
+    - cbn [fst]. apply inv_put; [exact HI|]. eapply A_ext; [| |apply HI]; reflexivity.
+    - destruct (as_token W k) as [t|] eqn:Et; [|exact HI]. destruct (as_mint W KMint) as [m|] eqn:Em; [|exact HI]. cbn [fst].
+      apply as_mint_ok in Em as (Hmo & _).
+      apply inv_put; [eapply put_token_inv; [exact HI|exact Et]|].
+      apply (tok_owned_free _ _ HI Hmo). exact Logic.I.
+    - destruct (_ && _) eqn:Ec; [|exact HI]. cbn [fst]. rg_norm.
+      apply inv_put.
+      + apply inv_put; [exact HI|]. eapply A_ext; [| |apply HI]; reflexivity.
+      + assert (F : free_key (KAta o_ KMint)).
+        { eapply not_rd_free; [exact HI|]. match goal with Hs : owner _ = KSystem |- _ => rewrite Hs end. discriminate. }
+        apply F. exact Logic.I.
+  Qed.
+  (* a transaction: the world after its instruction list, before the end-of-transaction purge *)
+  Theorem exec_tx_cases W t W' ok : exec_tx W t = (W', ok) -> inv W ->
+    W' = W \/ exists W1, inv W1 /\ W' = purge W1.
+  Proof.
+    unfold exec_tx. intros H HI. destruct (negb (tx_wf t)); [injection H as <- _; left; reflexivity|].
+    destruct (exec_ixs t (tx_ixs t) None W) as [W1|e] eqn:E; [|injection H as <- _; left; reflexivity].
+    destruct (rent_ok t W W1); injection H as <- _; [|left; reflexivity].
+    right. exists W1. split; [|reflexivity]. eapply exec_ixs_inv; eassumption.
+  Qed.
 End Generic.
+
+(* ==================================================================================================================
+   INDEX of Lemmas_Ledger.v (part 1; the instances and the user-level theorems are in Lemmas_Ledger2.v)
+   bit counting
+     count_bits f n            number of j < n with f j = true;  count_bits_ext / _le / _false / _set (+1) / _split / _zero_all
+     popcount t s e            set bits among ALL 8 * (e - s) positions of byte window [s, e) of the remaining data `t`
+     popcount_le, popcount_ext, popcount_empty, popcount_zero_all, popcount_app_zeros, popcount_fresh (appended window = 0)
+     popcount_set              process_leaf t s e idx = Ok t' -> popcount t' s e = popcount t s e + 1
+     popcount_other            process_leaf t s0 e0 idx = Ok t' -> e <= s0 \/ e0 <= s -> popcount t' s e = popcount t s e
+     process_leaf_length / _mono / _range_mono     length kept; no bit is ever cleared
+   ledger view
+     lview, lv d               flags (l_df l_rf l_wf), windows (l_ds l_de | l_rs l_re | l_ws l_we), counters (l_pc l_wc l_dc) of a dist
+     wf_lv v t (Record)        w_len (windows tile the data), w_dwin / w_rwin / w_wwin (start <= end <= length, size <= MAX_REALLOC),
+                               w_dr / w_dw / w_rw (pairwise disjoint), w_dflag / w_rflag / w_wflag (flag false -> window 0..0),
+                               w_rf_df / w_wf_df (rewards-final / write-off-enabled -> debt-final),
+                               w_dcount: popcount debt = l_pc + l_wc;  w_wcount: popcount write-off = l_wc;  w_rcount: popcount rewards = l_dc
+                               (equalities in N: no u32 wrap-around);  w_sub: write-off bit j set -> j inside the debt window and debt bit j set
+     wf_dist d t := wf_lv (lv d) t;   wf_lv0 : wf_lv lv0 [];   wf_counts_small / wf_counts_u32 (counters <= 81 920 < 2^32);
+     wf_unflagged_counts       flag false -> the corresponding counters are 0
+   updates
+     lv_step v t v' t'         the 8 ways a processor changes a distribution's ledger (LS_same, LS_debt_zero, LS_debt_alloc, LS_rew_alloc,
+                               LS_wo_alloc, LS_pay, LS_wo, LS_dist); ls_* = the same with the new view given by an equation
+     lv_step_wf                wf_lv v t -> lv_step v t v' t' -> wf_lv v' t'
+     lv_le v t v' t'           windows fixed once their flag is set, flags stay set, every bit of t still set in t', length t <= length t'
+     lv_le_refl, lv_le_trans, lv_step_le (lv_step v t v' t' -> lv_le v t v' t'), lv_le_range
+   generic preservation (Section Generic; A : key -> acct -> Prop with A_ext, A_free, A_dist)
+     inv A W := forall k, A k (get W k);  free_key, dist_key, wperm;  okw x (data that may be written where no distribution lives)
+     <primitive>_inv           write_data / put_dist (need wperm), try_initialize (okw; also yields free_key), credit, debit, resize,
+                               sys_transfer(_core), sys_create_account_core, create_account, create_token_account, put_token,
+                               tok_transfer(_core|_checked), tok_burn(_core), grow_and_fund (the realloc bound is handed to the side
+                               condition), distribute_loop, sw_dequeue_fills, swap_dequeue_cpi, withdraw_sol_cpi
+     rd_<name>_inv (all 22), rd_process_inv, pp_<name>_inv (6), pp_process_inv, sw_initialize_inv, sw_buy_sol_inv, sw_process_inv
+     exec_data_inv             any program id, any ixdata (top-level System / Token, rogue CPI, rogue buy), any stack height
+     exec_ixs_inv              instruction lists of a transaction
+     exec_op_nontx_inv         OSetClock / OAirdrop / OMintTo / OCreateAta
+     exec_tx_cases             exec_tx W t = (W', ok) -> inv A W -> W' = W \/ exists W1, inv A W1 /\ W' = purge W1
+   ================================================================================================================== *)
